@@ -307,6 +307,7 @@ UNITS['backend_small'] = dict(
         'c11_poll_signal_marked_f': dict(props=['C11', 'C09', 'C10'], kind='bounded', bound=_SMALL),
         'c11_poll_signal_marked_tf': dict(props=['C11', 'C09', 'C10'], kind='bounded', bound=_SMALL),
         'c11_poll_signal_idle_ttf': dict(props=['C11', 'C09', 'C10'], tier='thorough', kind='bounded', bound=_SMALL),
+        'c11_poll_signal_sym': dict(props=['C11', 'C09', 'C10'], kind='bounded', bound=_SMALL + ' - every callback schedule of <= 3 answers, symbolic slot state'),
         'c11_poll_signal_marked_te': dict(props=['C11', 'C09', 'C10'], tier='thorough', kind='bounded', bound=_SMALL),
     })
 UNITS['backend_small_c12'] = dict(
@@ -332,7 +333,7 @@ obl('C10.ONLY-OWN-SLOT', FB + 'action closure', 'after deliveries of one signal 
 obl('C10.SET-ONLY', 'exfiltrator/mod.rs: SignalOnly::store', 'a delivery only stores true')
 obl('C10.CLEAR', 'exfiltrator/mod.rs: SignalOnly::load', 'Some(sig) iff the slot was marked; the mark is consumed atomically; at most one report per mark')
 obl('C10.CLEAR-ATOMIC', 'exfiltrator/mod.rs: SignalOnly::load', 'exactly one atomic RMW on the slot, no separate load/store')
-obl('C09.NO-DRAIN-AFTER-SCAN', FB + 'SignalIterator::poll_signal', 'a drain during the call is always followed by a scan from slot 0 before Signal/Pending is reported', kind='bounded(table of 4, concrete callback schedules)')
+obl('C09.NO-DRAIN-AFTER-SCAN', FB + 'SignalIterator::poll_signal', 'a drain during the call is always followed by a scan from slot 0 before Signal/Pending is reported', kind='bounded(table of 4; every callback schedule of <= 3 answers - harness c11_poll_signal_sym - plus concrete schedules)')
 obl('C10.INDEX-IS-SIG', FB + 'Pending::next', 'yields the first marked slot >= position as its own index')
 obl('C10.ADVANCE-ON-NONE', FB + 'Pending::next', 'position advances only past slots that reported None (a slot that queues several deliveries is re-examined until it is empty)', also=['C09'])
 obl('C10.POLL-REAL', FB + 'SignalIterator::poll_signal', 'Signal(s) only for a marked slot s')
@@ -358,7 +359,7 @@ PROPS['C09'] = dict(level='other', units=['backend_small', 'backend'], trusted=_
     explanation='Proved: the action stores then wakes; the consumer drains then scans every slot from 0; poll_signal maps callback answers faithfully. The no-lost-wakeup theorem over these is argued in DESIGN.md.')
 PROPS['C10'] = dict(level='proof', units=['backend', 'backend_small', 'channel', 'backend_small_c12'], trusted=_TI + ['counting argument yields <= clears <= sets <= deliveries composed from the per-operation contracts (DESIGN.md C10)', 'info-carrying exfiltrators: at-most-once and order are the channel contracts C06/C07; faithful copy checked in unit backend_raw'],
     explanation='Per-operation contracts: a delivery only sets its own slot; load clears atomically and echoes the slot index; next() yields exactly the first marked slot.')
-PROPS['C11'] = dict(level='proof', units=['backend', 'backend_small'], trusted=_TI + ['a blocked reader returns because close() writes a wake-up byte (kernel semantics)', 'callback answers true at most once per call in the harness (bounded)'],
+PROPS['C11'] = dict(level='proof', units=['backend', 'backend_small'], trusted=_TI + ['a blocked reader returns because close() writes a wake-up byte (kernel semantics)', 'poll_signal harnesses: slot table shortened to 4, every callback schedule of at most 3 answers (symbolic) - bounded'],
     explanation='closed flag havoc-ed monotonically before every load (close() on another thread at any instant); sticky flag, close-then-wake, no callback after closed, Pending only if armed.')
 obl('C12.CTOR-CLEAN', FB + 'SignalDelivery::with_pipe', 'first refused signal => Err; earlier registrations unregistered; (native) pipe descriptors closed')
 obl('C12.SURVIVES-PANIC', FB + 'Handle::add_signal', 'after an addition rejected by panic (9 representative inputs): later add_signal Ok, re-add no-op, watched signals still delivered', kind='bounded(native execution, 9 inputs: -1, MIN, 128, MAX, KILL, STOP, ILL, FPE, SEGV)', also=['C14'])
